@@ -468,9 +468,11 @@ class Interp:
         if isinstance(s, ast.Expr):
             if isinstance(s.value, ast.Constant):
                 return
-            self.eval(s.value, env)
+            v = self.eval(s.value, env)
+            self._bind_out(s.value, v, env)
         elif isinstance(s, ast.Assign):
             v = self.eval(s.value, env)
+            self._bind_out(s.value, v, env)
             for t in s.targets:
                 self._assign(t, v, env, s)
         elif isinstance(s, ast.AnnAssign):
@@ -550,6 +552,17 @@ class Interp:
             raise _Continue()
         else:
             raise AnalysisError(f"{self.cur_func()}:{s.lineno}: unsupported statement {type(s).__name__}")
+
+    def _bind_out(self, call, result, env):
+        """np.f(..., out=name): afterwards the array called `name` holds the result (a buffer that is not an explicit
+        vector cannot be updated in place in the term domain: the name is re-bound to the result)"""
+        if not (isinstance(call, ast.Call) and result is not None):
+            return
+        for k in call.keywords:
+            if k.arg in ("out", "output") and isinstance(k.value, ast.Name):
+                cur = env.lookup(k.value.id)
+                if cur is not None and not (isinstance(cur, Vec) and isinstance(result, Vec)) and not isinstance(result, NoneV):
+                    env.set(k.value.id, result)
 
     def _exec_for(self, s, env):
         it = self.eval(s.iter, env)
@@ -747,6 +760,10 @@ class Interp:
 
     def _store_row(self, arr, idx, v):
         """arr[level, <all | j | a:>] = v with a constant level: keep the row as an explicit vector"""
+        if isinstance(idx, TupV) and len(idx.items) == 2 and _is_slice(idx.items[0]) and _slice_bounds(idx.items[0]) == (None, None) and isinstance(idx.items[1], Num) and nf.as_int(idx.items[1].nf) is not None:
+            # arr[:, j] = v : column j of every row
+            arr.cols[nf.as_int(idx.items[1].nf)] = v
+            return
         if not (isinstance(idx, TupV) and len(idx.items) == 2 and isinstance(idx.items[0], Num)):
             return
         lev, col = idx.items
@@ -907,7 +924,16 @@ class Interp:
             return BoolV("not", v) if isinstance(v, BoolV) else Num(nf.fn("invert", self.to_nf(v)))
         raise AnalysisError("unsupported unary operator")
 
+    def _arr_rows(self, v):
+        """a 2-D buffer filled column by column (arr[:, j] = v_j for every j): its generic row (v_0[i], ..., v_n-1[i])"""
+        if isinstance(v, Arr2) and v.cols and not v.rows and len(v.shape) == 2:
+            n = nf.as_int(v.shape[1])
+            if n is not None and set(v.cols) == set(range(n)):
+                return TupV([self._element_of(v.cols[j]) if isinstance(v.cols[j], (Num, Vec)) else v.cols[j] for j in range(n)], rowview=True)
+        return v
+
     def _map1(self, v, f):
+        v = self._arr_rows(v)
         if isinstance(v, Vec):
             return Vec(f(v.gen), v.length, {k: (p, f(x)) for k, (p, x) in v.over.items()})
         if isinstance(v, TupV):
@@ -968,6 +994,7 @@ class Interp:
         return Num(f(self.to_nf(a), self.to_nf(b)))
 
     def _matmul(self, a, b):
+        a, b = self._arr_rows(a), self._arr_rows(b)
         if isinstance(a, TupV) and isinstance(b, TupV) and len(a.items) == len(b.items):
             acc = {}
             for x, y in zip(a.items, b.items):
@@ -1027,7 +1054,11 @@ class Interp:
     def _compare(self, op, a, b):
         if isinstance(op, (ast.Is, ast.IsNot)):
             an, bn = isinstance(a, NoneV), isinstance(b, NoneV)
-            if an and bn:
+            sentinel = lambda v: isinstance(v, ExtObj) and v.qual == "object" and not v.args
+            if (sentinel(a) or sentinel(b)) and not (an or bn):
+                # a module-level `object()` marker is identical to itself and to nothing else
+                r = BoolV("const", a is b)
+            elif an and bn:
                 r = BoolV("const", True)
             elif (an or bn) and not self._maybe_none(a if bn else b):
                 r = BoolV("const", False)
@@ -2261,6 +2292,25 @@ def _h_masked_store(it, args, kwargs, bound, node, qual):
     return NoneV()
 
 
+def _h_ufunc(it, args, kwargs, bound, node, qual):
+    """np.add / subtract / multiply / divide / power / negative / square / reciprocal are the arithmetic operators"""
+    name = qual.split(".")[-1]
+    ops = {"add": ast.Add, "subtract": ast.Sub, "multiply": ast.Mult, "divide": ast.Div, "true_divide": ast.Div, "power": ast.Pow, "float_power": ast.Pow}
+    if set(kwargs) - {"out", "dtype"}:
+        return None
+    if "dtype" in kwargs:
+        return None
+    if name in ops and len(args) == 2:
+        return it._binop(ops[name](), args[0], args[1], node)
+    if name == "negative" and len(args) == 1:
+        return it._binop(ast.Sub(), const_num(0), args[0], node)
+    if name == "square" and len(args) == 1:
+        return it._binop(ast.Mult(), args[0], args[0], node)
+    if name == "reciprocal" and len(args) == 1:
+        return it._binop(ast.Div(), const_num(1), args[0], node)
+    return None
+
+
 def _h_mappingproxy(it, args, kwargs, bound, node, qual):
     """types.MappingProxyType(d): a read-only view of d - the same mapping for every read"""
     if len(args) == 1 and not kwargs and isinstance(args[0], DictV):
@@ -2438,6 +2488,7 @@ _EXT_HANDLERS = {
     "dict": _h_dict,
     "types.MappingProxyType": _h_mappingproxy,
     "bool": _h_bool,
+    **{"numpy." + k: _h_ufunc for k in ("add", "subtract", "multiply", "divide", "true_divide", "power", "float_power", "negative", "square", "reciprocal")},
     "zip": _h_zip,
     "numpy.place": _h_masked_store,
     "numpy.putmask": _h_masked_store,
